@@ -70,6 +70,12 @@ func symSink(R int) *fsState {
 		st.rotC[i] = nondetString()
 		os.WriteFile(stamped(st.rotT[i]), []byte(st.rotC[i]), 0600)
 	}
+	// each of them last touched whenever (restored from a backup, say): age is in the name, not in the inode
+	var rotNames []string
+	for i := 0; i < st.nRot; i++ {
+		rotNames = append(rotNames, stamped(st.rotT[i]))
+	}
+	verifAgeFiles(rotNames)
 	if nondetBool() {
 		st.foreignA = true
 		os.WriteFile(fsDir+"/other.txt", []byte("foreign-a"), 0644)
